@@ -553,7 +553,7 @@ pub fn gen_history(rng: &mut Rng, kind: &str, invalid: bool, thorough: bool) -> 
     if !matches!(g.steps.last(), Some(Step::Query { .. })) {
         g.random_query();
     }
-    (recipe, g.steps)
+    (if usz >= 20 { "bulk_large_universe" } else { recipe }, g.steps)
 }
 
 // ------------------------------------------------------------------------------------ replay
